@@ -1217,8 +1217,8 @@ def d17_key_name_match_needs_an_array_of_hashes(chk: Check) -> None:
                          "selected by `[.=key]` and lost by `[.!=key]`, "
                          "which the Array-of-Hashes rule of the `.` search "
                          "excludes")
-    if n == 0:
-        raise AnalysisError("key-name match of the list arm not found")
+    # (no match site at all is left to the rule's floor: another rule may
+    # already be reporting the edit that removed it)
 
 
 def _enclosing_tests(node: ast.AST):
